@@ -157,6 +157,72 @@ theorem relatedOut_immutable (db : DB) (ds t : Nat) (b : List Ent) (src pred at_
     · simp [hr]
   rw [key, hf, ← key]
 
+/-- the same for a multi-dataset transaction committed after `at`. -/
+theorem relatedOut_immutable_txn (db : DB) (t : Nat) (parts : List (Nat × List Ent)) (src pred at_ limit : Nat)
+    (scope : List Nat) (sk : Option RefKey) (h : at_ < t) :
+    relatedOut (execTxn db t parts) src pred at_ limit scope sk = relatedOut db src pred at_ limit scope sk := by
+  obtain ⟨hf, _, hd⟩ := frame_txn db t parts
+  apply relatedOut_local _ _ _ _ _ _ _ _ _ hd
+  have key : ∀ rs : List RefKey, rs.filter (fun r => decide (r.t ≤ at_))
+      = (rs.filter (fun r => decide (r.t ≠ t))).filter (fun r => decide (r.t ≤ at_)) := by
+    intro rs
+    rw [List.filter_filter]
+    apply List.filter_congr
+    intro r _
+    by_cases hr : r.t ≤ at_
+    · have : r.t ≠ t := by omega
+      simp [hr, this]
+    · simp [hr]
+  rw [key, hf, ← key]
+
+/-! ### every later history -/
+
+/-- a later write: a batch into one dataset, or a transaction over several. -/
+inductive Write where
+  | batch (ds t : Nat) (b : List Ent)
+  | txn (t : Nat) (parts : List (Nat × List Ent))
+
+def Write.time : Write → Nat
+  | .batch _ t _ => t
+  | .txn t _ => t
+
+def Write.apply (db : DB) : Write → DB
+  | .batch ds t b => storeBatch db ds t b
+  | .txn t parts => execTxn db t parts
+
+/-- T-C06-4 (history is immutable, every suffix): whatever is written after the instant `at` — any number of batches and
+transactions, into any datasets, in any order, each committed later than `at` — an entity lookup pinned to `at` (live
+partials and deleted flag, any scope) and an outgoing relationship query pinned to `at` (results and continuation, any
+limit, predicate, scope and continuation key) answer exactly what they answered before. -/
+theorem history_immutable (db : DB) (ws : List Write) (at_ : Nat) (h : ∀ w ∈ ws, at_ < w.time) :
+    (∀ rid scope, partialsAt (ws.foldl Write.apply db) rid at_ scope = partialsAt db rid at_ scope)
+    ∧ (∀ src pred limit scope sk,
+        relatedOut (ws.foldl Write.apply db) src pred at_ limit scope sk = relatedOut db src pred at_ limit scope sk) := by
+  induction ws generalizing db with
+  | nil => exact ⟨fun _ _ => rfl, fun _ _ _ _ _ => rfl⟩
+  | cons w ws ih =>
+    have hw : at_ < w.time := h w (List.mem_cons_self ..)
+    obtain ⟨ih1, ih2⟩ := ih (Write.apply db w) (fun w' hw' => h w' (List.mem_cons_of_mem _ hw'))
+    simp only [List.foldl_cons]
+    constructor
+    · intro rid scope
+      rw [ih1]
+      cases w with
+      | batch ds t b => exact lookup_immutable db ds t b rid at_ scope hw
+      | txn t parts => exact lookup_immutable_txn db t parts rid at_ scope hw
+    · intro src pred limit scope sk
+      rw [ih2]
+      cases w with
+      | batch ds t b => exact relatedOut_immutable db ds t b src pred at_ limit scope sk hw
+      | txn t parts => exact relatedOut_immutable_txn db t parts src pred at_ limit scope sk hw
+
+-- non-vacuity: two later writes (a batch that deletes the entity, a transaction that re-creates it) leave the lookup at 15 alone
+example : let a : Ent := ⟨1, false, [], "1", []⟩; let d : Ent := ⟨1, true, [], "1", []⟩
+    let db := storeBatch {} 2 10 [a]
+    let ws := [Write.batch 2 20 [d], Write.txn 30 [(2, [a]), (3, [a])]]
+    (∀ w ∈ ws, 15 < w.time) ∧ (partialsAt (ws.foldl Write.apply db) 1 15 []).1.map (·.1.t) = [10]
+    ∧ (partialsAt (ws.foldl Write.apply db) 1 25 []).1.map (·.1.t) = [] := by decide
+
 /-! ## tie to the Go source (regenerated facts) -/
 open Hub.Facts.Layout in
 theorem facts_shape :
